@@ -156,5 +156,17 @@ func factsStores() {
 		}
 		return true
 	})
+	var sendErrs []string
+	ast.Inspect(body(fn(lim, "limitedServer", "Send")), func(n ast.Node) bool {
+		if ifs, ok := n.(*ast.IfStmt); ok && ifs.Init != nil {
+			for _, st := range ifs.Body.List {
+				if ret, ok := st.(*ast.ReturnStmt); ok && len(ret.Results) == 1 {
+					sendErrs = append(sendErrs, text(ret.Results[0]))
+				}
+			}
+		}
+		return true
+	})
+	emitList("storesLimitedSendErrors", "pkg/store/limiter.go limitedServer.Send: what is returned when a limiter refuses", sendErrs)
 	emitStr("storesLimiterCond", "pkg/store/limiter.go Limiter.ReserveWithType: the reservation and its test", limCond)
 }
